@@ -43,7 +43,7 @@ def make_array(spec, shape=None):
 def relayout(a, layout):
     """The same logical array in another memory layout: "f" = Fortran order, "strided" = a view into a larger
     buffer (every second element along the last axis), "reversed" = negative strides.  Commands must not care."""
-    if not layout or layout == "c" or a.size == 0:
+    if not layout or layout == "c" or a.size == 0 or a.ndim == 0:
         return a
     if layout == "f":
         return numpy.asfortranarray(a)
